@@ -113,11 +113,15 @@ VARIANTS = {
     "v_int": ("x: int", "int"), "v_float": ("x: float", "int"), "v_nat": ("x: nat", "int"), "v_bool": ("x: bool", "int"),
     "v_gen": ("x: T", "int"), "v_two": ("x: int, y: int", "int"), "v_two_f": ("x: float, y: float", "int"), "v_none": ("", "int"),
     "v_tup": ("x: tuple[int, int]", "int"), "v_ret_f": ("x: int", "float"), "v_ret_b": ("x: int", "bool"),
+    # variants that accept the first argument (and annotate / coerce it) before failing on a later one
+    "v_ib": ("x: int, y: bool", "int"), "v_ni": ("x: nat, y: int", "int"), "v_fb": ("x: float, y: bool", "int"),
+    "v_tfb": ("x: tuple[float, bool]", "int"), "v_tni": ("x: tuple[nat, int]", "int"),
 }
 NESTED = {"ovA": ("v_two", "v_tup"), "ovB": ("v_bool", "v_nat")}      # overload sets used as variants of other sets
 SETS = [("ovA", "v_float"), ("v_float", "ovA", "v_int"), ("ovB", "ovA", "v_gen"), ("v_int", "v_float"), ("v_float", "v_int"), ("v_gen", "v_int"), ("v_int", "v_gen"), ("v_two", "v_int", "v_float"), ("v_nat", "v_int", "v_float"),
-        ("v_bool", "v_float", "v_gen"), ("v_none", "v_two_f", "v_two"), ("v_ret_b", "v_ret_f", "v_int"), ("v_tup", "v_gen"), ("v_float", "v_nat", "v_tup", "v_none")]
-ARGS = ["1", "1.5", "True", "n", "i", "(1, 2)", "1, 2", "i, 1.5", "", "-1"]
+        ("v_bool", "v_float", "v_gen"), ("v_none", "v_two_f", "v_two"), ("v_ret_b", "v_ret_f", "v_int"), ("v_tup", "v_gen"), ("v_float", "v_nat", "v_tup", "v_none"),
+        ("v_ib", "v_ni"), ("v_fb", "v_two"), ("v_tfb", "v_tup"), ("v_ib", "v_two_f", "v_ni"), ("v_tfb", "v_tni", "v_gen")]
+ARGS = ["1", "1.5", "True", "n", "i", "(1, 2)", "1, 2", "i, 1.5", "", "-1", "1, True", "n, 1", "(1, True)", "(n, 2)"]
 POSITIONS = ["synth", "check_int", "check_float", "check_bool"]
 _SH, _NSH = (int(x) for x in os.environ.get("VERIF_C15_SHARD", "0/1").split("/"))
 CASES = [(s, a, p) for s in range(len(SETS)) for a in range(len(ARGS)) for p in range(len(POSITIONS))][_SH::_NSH]
